@@ -188,7 +188,9 @@ RECURSIVE Eval(_, _), EvalSeq(_, _, _), EvalFields(_, _, _), ExecBlock(_, _, _, 
 \* A settled future: the outcome of the block, which ran on a snapshot of the scopes visible where it was
 \* spawned.  Blocks communicate with their parent only through await, so the outcome does not depend on
 \* when the block runs and the definition may run it at once.
+\* (a block that answers with a status of its own hands a status-carrying value to its awaiter: not modelled)
 Settled(r) == CASE r.ctl = "error" -> [ok |-> FALSE, v |-> VNull, err |-> r.val]
+                [] r.ctl = "return" /\ r.st # 200 -> [ok |-> FALSE, v |-> VNull, err |-> "UNREP"]
                 [] r.ctl \in {"return", "next"} -> [ok |-> TRUE, v |-> r.val, err |-> ""]
                 [] OTHER -> [ok |-> FALSE, v |-> VNull, err |-> "loopctl"]
 Eval(e, sc) ==
@@ -239,6 +241,21 @@ Eval(e, sc) ==
             ELSE IF Dev("VM_AwaitPassesValue") THEN Ok(a.v) ELSE Err("type")
       [] e.e = "match" ->     \* cases in order; the first whose pattern matches and whose guard holds gives the value; none: null
             LET v == Eval(e.x, sc) IN IF ~v.ok THEN v ELSE EvalCases(e.cases, v.v, sc, 1)
+      [] e.e = "fcall" ->     \* a function the module declares: arguments left to right, then the body in a scope of its own
+            LET av == EvalSeq(e.as, sc, 1) IN
+            IF ~av.ok THEN av
+            ELSE LET fs == Progs[pi].funcs
+                     S == {i \in 1..Len(fs) : fs[i].name = e.fn} IN
+                 IF S = {} THEN Err("undefined")
+                 ELSE LET f == fs[CHOOSE i \in S : TRUE] IN
+                      IF Len(av.v) > Len(f.params) THEN Err("type")        \* too many arguments; missing ones are null
+                      ELSE LET scope == [n \in {f.params[i] : i \in 1..Len(f.params)} |->
+                                          LET i == CHOOSE j \in 1..Len(f.params) : f.params[j] = n IN IF i <= Len(av.v) THEN av.v[i] ELSE VNull]
+                               \* lexical scoping: the body sees its parameters and its own variables, never the caller's
+                               r == ExecBlock(f.body, <<scope>>, MaxFuel, 1) IN
+                           CASE r.ctl = "error" -> Err(r.val)
+                             [] r.ctl \in {"return", "next"} -> (IF r.st # 200 THEN Err("UNREP") ELSE Ok(r.val))
+                             [] OTHER -> Err("loopctl")
       [] e.e = "calln" ->     \* string builtins (arguments evaluated left to right, then checked)
             LET av == EvalSeq(e.as, sc, 1) IN
             IF ~av.ok THEN av
@@ -310,7 +327,8 @@ EvalCases(cs, v, sc, i) ==
 \* Result of running statements: [sc, ctl, val, fuel]; ctl: "next" | "break" | "continue" | "return" | "error";
 \* val: the returned value / error class / value of the last statement (a body that ends without
 \* `>` yields the value of its last statement).
-R(sc, ctl, val, fuel) == [sc |-> sc, ctl |-> ctl, val |-> val, fuel |-> fuel]
+\* st: the HTTP status the route answers with (200 unless a guard or `> v :: N` says otherwise)
+R(sc, ctl, val, fuel) == [sc |-> sc, ctl |-> ctl, val |-> val, fuel |-> fuel, st |-> 200]
 
 \* keys of an object in ascending order (REF: the interpreter iterates in Go map order)
 SortedFields(o) == LET idx == SelectSeq(KeyOrder, LAMBDA k : HasKey(o, k)) IN
@@ -344,8 +362,17 @@ Exec(s, sc, fuel) ==
                  IF ~v.ok THEN R(sc, "error", v.err, fuel) ELSE R(SetVar(sc, s.n, v.v), "next", v.v, fuel - 1)
       [] s.s = "expr" ->
             LET v == Eval(s.x, sc) IN IF ~v.ok THEN R(sc, "error", v.err, fuel) ELSE R(sc, "next", v.v, fuel - 1)
-      [] s.s = "ret" ->
-            LET v == Eval(s.x, sc) IN IF ~v.ok THEN R(sc, "error", v.err, fuel) ELSE R(sc, "return", v.v, fuel - 1)
+      [] s.s = "ret" ->           \* > e   or   > e :: status
+            LET v == Eval(s.x, sc) IN
+            IF ~v.ok THEN R(sc, "error", v.err, fuel)
+            ELSE IF s.status = 0 THEN R(sc, "return", v.v, fuel - 1)
+            ELSE [R(sc, "return", v.v, fuel - 1) EXCEPT !.st = s.status]
+      [] s.s = "guard" ->         \* ? cond :: status "message": answers {error: message} with the status unless cond holds
+            LET c == Eval(s.c, sc) IN
+            IF ~c.ok THEN R(sc, "error", c.err, fuel)
+            ELSE IF c.v.k # "bool" THEN R(sc, "error", "type", fuel)
+            ELSE IF c.v.v THEN R(sc, "next", VNull, fuel - 1)
+            ELSE [R(sc, "return", VObj(<<[name |-> "error", v |-> VStr(s.msg)]>>), fuel - 1) EXCEPT !.st = s.status]
       [] s.s = "break" -> R(sc, "break", VNull, fuel - 1)
       [] s.s = "continue" -> R(sc, "continue", VNull, fuel - 1)
       [] s.s = "if" ->
@@ -415,7 +442,7 @@ Run(p) ==
             \* a block that ran into the iteration limit and was never awaited is still spinning when the route answers
             IF \E i \in 1..Len(r.sc) : \E n \in DOMAIN r.sc[i] : r.sc[i][n].k = "fut" /\ ~r.sc[i][n].r.ok /\ r.sc[i][n].r.err = "limit"
               THEN [kind |-> "unrep"]
-              ELSE [kind |-> "value", v |-> r.val]
+              ELSE [kind |-> "value", v |-> r.val, st |-> r.st]
       [] r.ctl \in {"break", "continue"} -> [kind |-> "error", class |-> "loopctl"]     \* break/continue outside a loop
 
 (* ---- concrete syntax --------------------------------------------------------------------------- *)
@@ -459,6 +486,7 @@ SrcE(e, min) ==
       [] e.e = "idx" -> SrcE(e.o, 40) \o "[" \o SrcE(e.i, 0) \o "]"
       [] e.e = "call" -> e.fn \o "(" \o SrcE(e.a, 0) \o ")"
       [] e.e = "calln" -> e.fn \o "(" \o SrcList(e.as, 1) \o ")"
+      [] e.e = "fcall" -> e.fn \o "(" \o SrcList(e.as, 1) \o ")"
       [] e.e = "match" -> "match " \o SrcE(e.x, 40) \o " {\n" \o SrcMCases(e.cases, 1) \o "    }"
       [] e.e = "async" -> "async {\n" \o SrcB(e.b, 3, 1) \o "    }"
       [] e.e = "await" -> Wrap("await " \o SrcE(e.a, 40), min > 0)     \* await takes a whole expression: (await f) + 1
@@ -481,7 +509,8 @@ SrcS(s, n) ==
     (CASE s.s = "decl" -> "$ " \o s.n \o " = " \o SrcE(s.x, 0) \o "\n"
        [] s.s = "set" -> s.n \o " = " \o SrcE(s.x, 0) \o "\n"
        [] s.s = "expr" -> SrcE(s.x, 0) \o "\n"
-       [] s.s = "ret" -> "> " \o SrcE(s.x, 0) \o "\n"
+       [] s.s = "ret" -> "> " \o SrcE(s.x, 0) \o (IF s.status = 0 THEN "" ELSE " :: " \o ToString(s.status)) \o "\n"
+       [] s.s = "guard" -> "? " \o SrcE(s.c, 0) \o " :: " \o ToString(s.status) \o " \"" \o EscStr(s.msg) \o "\"\n"
        [] s.s = "break" -> "break\n"
        [] s.s = "continue" -> "continue\n"
        [] s.s = "if" -> "if " \o SrcE(s.c, 0) \o " {\n" \o SrcB(s.t, n + 1, 1) \o Ind(n) \o "}"
@@ -497,6 +526,11 @@ SrcCases(cs, n, i) == IF i > Len(cs) THEN ""
                       ELSE Ind(n) \o "case " \o SrcE(cs[i].v, 0) \o " {\n" \o SrcB(cs[i].b, n + 1, 1) \o Ind(n) \o "}\n" \o SrcCases(cs, n, i + 1)
 
 Src(p) == SrcB(p.body, 1, 1)
+\* the module's functions, written before the route: ! name(a: any, b: any) { body }
+RECURSIVE SrcParams(_, _), SrcFuncs(_, _)
+SrcParams(ps, i) == IF i > Len(ps) THEN "" ELSE ps[i] \o ": any" \o (IF i < Len(ps) THEN ", " ELSE "") \o SrcParams(ps, i + 1)
+SrcFuncs(fs, i) == IF i > Len(fs) THEN "" ELSE "! " \o fs[i].name \o "(" \o SrcParams(fs[i].params, 1) \o ") {\n" \o SrcB(fs[i].body, 1, 1) \o "}\n\n" \o SrcFuncs(fs, i + 1)
+Pre(p) == SrcFuncs(p.funcs, 1)
 
 (* ---- one state per program ----------------------------------------------------------------------- *)
 Init == pi \in 1..Len(Progs) /\ result = [kind |-> "pending"]
@@ -508,5 +542,5 @@ Spec == Init /\ [][Next]_vars
 Total == result.kind \in {"pending", "value", "error", "unrep"}
 \* scope discipline: a body ends with exactly the outermost scope left (checked inside Run by Pop/Push pairing)
 EmitInv == (result.kind # "pending") =>
-    PrintT(<<"CASE", ToJson([id |-> Progs[pi].id, src |-> Src(Progs[pi]), out |-> result])>>)
+    PrintT(<<"CASE", ToJson([id |-> Progs[pi].id, src |-> Src(Progs[pi]), pre |-> Pre(Progs[pi]), out |-> result])>>)
 =============================================================================
